@@ -13,7 +13,7 @@
      ufrac a x / vfrac a y     (x - xmin) / pixel_size_x, (ymax - y) / pixel_size_y: position in pixels from the left / top edge
                                (between (cell_x a p) (cell_x a q) x <-> p <= ufrac a x <= q, lemma between_x; same for y)
      in_cell_or_band a e r c   per axis: in the closed cell, or c = 0 and -e <= ufrac < 0, or c = width-1 and width < ufrac <= width+e *)
-From Coq Require Import Reals ZArith Lra Lia Bool PrimFloat.
+From Coq Require Import Reals ZArith Lra Lia Bool PrimFloat List.
 From Flocq Require Import Raux Generic_fmt Round_NE.
 From PR Require Import Base.Num Base.RNum Base.F64 Model.Grid Model.CellIndex Model.CellSample Model.C18_run Gen.GenC18
      Proofs.Grid_real Proofs.C18_axis Proofs.C18_real Proofs.C18_gen Proofs.C18_sample.
@@ -312,3 +312,31 @@ Theorem C18_ll2cr_model_is_C08_model : forall (a : area R) fill x y,
   EWA.ll2cr_pixel RO (EWA.ll2cr_params RO a) fill (x, y) = ll2cr_point RO a fill x y.
 Proof. exact c08_ll2cr_same. Qed.
 Print Assumptions C18_ll2cr_model_is_C08_model.
+
+(* ------------------------------------------------------------------ several bucket resamplers evaluated in ONE dask.compute
+   (merged task graph, Model/CellSample.v): as long as task names identify what the projection task computes (equal names
+   only for equal outputs; in particular pairwise different names, which is what dask's default map_blocks naming gives:
+   the token covers the bound method and thereby the resampler with its target area), every resampler's x_idxs / y_idxs
+   are exactly its stand-alone indices, i.e. bk_xy of ITS OWN area on ITS OWN projection coordinates - for any number of
+   resamplers, any arithmetic.  Naming the task after the lon/lat inputs only breaks the hypothesis (refuted below). *)
+Theorem C18_bucket_joint_compute_is_standalone : forall {T} (OP : ops T) (rs : list (resampler (T := T))),
+  keys_sound rs -> rs_joint OP rs = map (rs_standalone OP) rs.
+Proof. intros T OP. exact (joint_is_standalone OP). Qed.
+Print Assumptions C18_bucket_joint_compute_is_standalone.
+Theorem C18_bucket_distinct_task_names_suffice : forall {T} (rs : list (resampler (T := T))),
+  NoDup (map rs_key rs) -> keys_sound rs.
+Proof. intros T. exact (@nodup_keys_sound T). Qed.
+Print Assumptions C18_bucket_distinct_task_names_suffice.
+Theorem C18_bucket_standalone_is_own_area : forall {T} (OP : ops T) (r : resampler (T := T)),
+  rs_standalone OP r = map (fun p => bk_xy OP (rs_area r) (fst p) (snd p)) (rs_proj r).
+Proof. intros T OP. exact (standalone_eq OP). Qed.
+Print Assumptions C18_bucket_standalone_is_own_area.
+(* two targets, one shared task name (the name depends on the lon/lats only): the second resampler bins the point with the
+   first area's projection coordinates - a point outside its area lands in its cell (column 0, row 1) *)
+Example C18_bucket_joint_shared_name_refuted :
+  let ra := mk_rs unit_area 7 ((0.5%float, 2.5%float) :: nil) in
+  let rb := mk_rs unit_area 7 ((100.5%float, 2.5%float) :: nil) in
+  rs_standalone F64 rb = ((-1)%Z, (-1)%Z) :: nil /\ rs_joint F64 (ra :: rb :: nil) = (((0%Z, 1%Z) :: nil) :: ((0%Z, 1%Z) :: nil) :: nil) /\
+  rs_joint F64 (mk_rs unit_area 7 ((0.5%float, 2.5%float) :: nil) :: mk_rs unit_area 8 ((100.5%float, 2.5%float) :: nil) :: nil)
+    = (((0%Z, 1%Z) :: nil) :: (((-1)%Z, (-1)%Z) :: nil) :: nil).
+Proof. vm_compute. repeat split. Qed.
